@@ -24,8 +24,9 @@ enum Op {
     A2NoFlush10,
     Idle400,
     Idle1s,
+    Idle1500,
 }
-const OPS: [Op; 15] = [
+const OPS: [Op; 16] = [
     Op::ResolveMixed,
     Op::ResolveLower500,
     Op::ResolveMixed1500,
@@ -41,6 +42,7 @@ const OPS: [Op; 15] = [
     Op::A2NoFlush10,
     Op::Idle400,
     Op::Idle1s,
+    Op::Idle1500,
 ];
 
 /// One delivered address record (the reference store).
@@ -241,6 +243,7 @@ impl Scenario for Scn {
             Op::A2NoFlush10 => deliver(run, &lower, "10.0.0.24".parse().unwrap(), 10, false, IF0),
             Op::Idle400 => run.w.advance(400),
             Op::Idle1s => run.w.advance(1000),
+            Op::Idle1500 => run.w.advance(1500),
         }
         self.check_view(run, &format!("{op:?}"));
     }
